@@ -10,6 +10,7 @@ package main
 // functions (verif-tagged exports) on enumerated and random token lists: result or panic must agree.
 
 import (
+	"encoding/json"
 	"fmt"
 	"hash/fnv"
 	"os"
@@ -118,6 +119,8 @@ func corpusCases() []*c20Case {
 		mk("Linux", "ipv6 rule into chain of DROP rules", "", map[string]string{"code/router": "*filter\n:INPUT DROP\n-A INPUT -j DROP\nCOMMIT\n", "code/ipv6/router": "*filter\n:INPUT DROP\n-A INPUT -j DROP\nCOMMIT\n"}),
 		mk("IOS", "crypto map in raw file (F-C20s)", "", map[string]string{"code/router": "crypto map VPN 1 ipsec-isakmp\n set peer 1.1.1.1\ninterface E0\n crypto map VPN\n",
 			"code/router.raw": "crypto map VPN 1 ipsec-isakmp\n set peer 1.1.1.1\ninterface E0\n crypto map VPN\n"}),
+		mk("ASA", "12 transform-sets (F-C20t)", "", map[string]string{"code/router": "crypto ipsec ikev1 transform-set a esp-aes\ncrypto map M 1 set ikev1 transform-set a a a a a a a a a a a a\ncrypto map M 1 set peer 1.1.1.1\ncrypto map M interface outside\ninterface E0\n nameif outside\n"}),
+		mk("IOS", "object-group in IOS ACL (F-C20u)", "", map[string]string{"code/router": "ip access-list extended A\n permit ip object-group G any\n"}),
 		mk("NSX", "null in groups", "", map[string]string{"code/router": `{"groups":[null]}`}),
 		mk("NSX", "null in expression", "", map[string]string{"code/router": `{"groups":[{"id":"Netspoc-g1","expression":[null]}]}`}),
 		mk("NSX", "null in rules", "", map[string]string{"code/router": `{"policies":[{"id":"Netspoc-v1","rules":[null]}]}`}),
@@ -170,6 +173,41 @@ func panCycleCases() []*c20Case {
 	return out
 }
 
+// sizeCases: "never hang" — large and deeply repetitive inputs, judged by the per-case timeout.
+func sizeCases() []*c20Case {
+	mk := func(typ, name, dev, code string, extra map[string]string) *c20Case {
+		f := map[string]string{"device": dev, "code/router": code, "code/router.info": infoJSON(typ)}
+		for k, v := range extra {
+			f[k] = v
+		}
+		return &c20Case{Prog: "drc", Args: []string{"-q", "device", "code/router"}, Files: f, Type: typ, Test: "size:" + name, Mut: "size", Class: "size"}
+	}
+	rep := strings.Repeat
+	var acl, acl2, ipt, grp strings.Builder
+	for i := 0; i < 3000; i++ {
+		fmt.Fprintf(&acl, "access-list A extended permit tcp host 10.%d.%d.1 any4 eq %d\n", i/250, i%250, 1+i%60000)
+		fmt.Fprintf(&acl2, "access-list A extended permit udp host 10.%d.%d.2 any4 eq %d\n", i%250, i/250, 1+i%60000)
+		fmt.Fprintf(&ipt, "-A INPUT -s 10.%d.%d.1 -p tcp --dport %d -j ACCEPT\n", i/250, i%250, 1+i%60000)
+	}
+	for i := 0; i < 400; i++ {
+		fmt.Fprintf(&grp, `<entry name="g%d"><static><member>g%d</member></static></entry>`, i, i+1)
+	}
+	return []*c20Case{
+		mk("ASA", "one line of 200000 words", "", "access-list A extended permit ip"+rep(" any4", 200000)+"\naccess-group A global\n", nil),
+		mk("ASA", "line of 1 MB without blank", "", "access-list A extended permit ip "+rep("x", 1<<20)+"\n", nil),
+		mk("ASA", "3000 ACL lines, all different on device", acl.String()+"access-group A global\ninterface E0\n nameif inside\n", acl2.String()+"access-group A global\n", nil),
+		mk("IOS", "60000 sub command lines", "", "interface E0\n"+rep(" shutdown\n", 60000), nil),
+		mk("IOS", "indentation of 100000 blanks", "", "interface E0\n"+rep(" ", 100000)+"shutdown\n shutdown\n", nil),
+		mk("IOS", "banner that never ends", "banner motd ^C\n"+rep("x\n", 100000), "", nil),
+		mk("Linux", "3000 iptables rules in raw into 3000", "", "*filter\n:INPUT DROP\n"+ipt.String()+"COMMIT\n", map[string]string{"code/router.raw": "*filter\n:INPUT DROP\n[APPEND]\n" + ipt.String() + "COMMIT\n"}),
+		mk("Linux", "rule with 100000 options", "", "*filter\n:INPUT DROP\n-A INPUT"+rep(" ! -s 1.1.1.1", 100000)+"\n", nil),
+		mk("NSX", "100000 header lines", "", rep("# x\n", 100000)+"{}", nil),
+		mk("NSX", "deeply nested JSON", "", rep("[", 100000)+rep("]", 100000), nil),
+		mk("PAN-OS", "chain of 400 nested address-groups", "", panConf("g0", nil)[:0]+`<config><devices><entry name="d"><vsys><entry name="vsys1"><rulebase><security><rules><entry name="r1"><action>allow</action><from><member>z1</member></from><to><member>z2</member></to><source><member>g0</member></source><destination><member>any</member></destination><service><member>any</member></service><application><member>any</member></application></entry></rules></security></rulebase><address-group>`+grp.String()+`</address-group></entry></vsys></entry></devices></config>`, nil),
+		mk("PAN-OS", "deeply nested XML", "", rep("<a>", 50000)+rep("</a>", 50000), nil),
+	}
+}
+
 func buildMissingApprove(ctx *Ctx, res *Result) string {
 	dir, _ := os.MkdirTemp("", "c20bin")
 	bin := filepath.Join(dir, "missing-approve")
@@ -216,6 +254,34 @@ func runC20(ctx *Ctx) *Result {
 		return res
 	}
 
+	// ---- whole-program site classification (written by translate/panicsites on this run)
+	if data, err := os.ReadFile(filepath.Join(ctx.Verif, "lean", "NA", "Gen", "PanicSitesAll.json")); err == nil {
+		var all struct {
+			Counts       map[string]int `json:"counts"`
+			Occurrences  map[string]int `json:"occurrences"`
+			Rules        map[string]int `json:"syntactic_rules"`
+			Unclassified []string       `json:"unclassified"`
+			Packages     []string       `json:"packages"`
+		}
+		if json.Unmarshal(data, &all) == nil {
+			for k, v := range all.Counts {
+				res.CountN("sites-keys:"+k, v)
+			}
+			for k, v := range all.Occurrences {
+				res.CountN("sites-occurrences:"+k, v)
+			}
+			for k, v := range all.Rules {
+				res.CountN("sites-syntactic-rule:"+k, v)
+			}
+			res.CountN("sites-packages", len(all.Packages))
+			if len(all.Unclassified) > 0 {
+				res.Notes = append(res.Notes, "unclassified panic sites: "+strings.Join(all.Unclassified, " ; "))
+			}
+		}
+	} else {
+		res.Notes = append(res.Notes, "whole-program site classification not found: "+err.Error())
+	}
+
 	// ---- T-corr: model versus real token-cursor functions
 	runCorr(ctx, res)
 
@@ -254,6 +320,9 @@ func runC20(ctx *Ctx) *Result {
 		for _, c := range panCycleCases() {
 			push(c)
 		}
+		for _, c := range sizeCases() {
+			push(c)
+		}
 		i := 0
 		enumerate(bases, func(class string, build func() *c20Case) {
 			i++
@@ -278,6 +347,12 @@ func runC20(ctx *Ctx) *Result {
 		res.Count("class:" + c.Class)
 		res.Count("type:" + c.Type)
 		res.Count("prog:" + c.Prog)
+		if c.Class == "size" {
+			res.CountN("size-case-ms:"+c.Test, int(o.Elapsed/1000))
+		}
+		if int(o.Elapsed/1000) > res.Distribution["max-elapsed-ms"] {
+			res.Distribution["max-elapsed-ms"] = int(o.Elapsed / 1000)
+		}
 		switch {
 		case o.Panic != "" || o.Died != "" || o.Hang:
 			res.Count("outcome:crash")
